@@ -98,6 +98,10 @@ func (o Op) String() string {
 		return "RollbackTrie(checkpoint node)"
 	case 'Q':
 		return "RollbackTrie(CopyRoot snapshot taken at the checkpoint)"
+	case 'p':
+		return "GetBlockProof(1) on the live trie"
+	case 'g':
+		return "DeleteNodes while the storage write fails"
 	case 'u':
 		return fmt.Sprintf("Update(k%d,%s*,w=%d) while the first storage read fails", o.Key, o.Val, Weight(o.Val))
 	case 'x':
@@ -145,11 +149,44 @@ type World struct {
 	Alt bool
 	// Unjudged: the history left what the properties define (see Apply, faulted delete)
 	Unjudged bool
+	// Faults counts the operations that ran into an injected storage error. On the unchanged code such an
+	// operation changes nothing, so the dumped state would merge "after a failed operation" with "before it";
+	// whatever a CHANGED implementation remembers of a failed operation is not in the dump. The count is part
+	// of the state key so that histories continue after a fault.
+	Faults int
+	// Reads: proofs read from the live trie so far (capped): a read changes nothing the dump shows, but a
+	// changed implementation may cache what it decoded; histories with and without reads are kept apart
+	Reads int
+	// one hash-node OBJECT per (root, weight), handed to every trie that is opened on that root: reloads,
+	// rollback targets and the reopened tries of the oracles (a hash node is immutable; tries share them freely)
+	nodes map[string]wmpt.Node
 }
 
 func NewWorld(sh Shared) *World {
 	s := dev.NewStore()
 	return &World{Shared: sh, S: s, T: wmpt.New(nil, s), M: model.NewWModel()}
+}
+
+// sharedNode returns the one hash-node object this world uses for (root, weight).
+func (w *World) sharedNode(root []byte, weight uint64) wmpt.Node {
+	if weight == 0 {
+		return nil
+	}
+	k := fmt.Sprintf("%x/%d", root, weight)
+	if w.nodes == nil {
+		w.nodes = map[string]wmpt.Node{}
+	}
+	n, ok := w.nodes[k]
+	if !ok {
+		n = wmpt.NewHashNode(root, weight)
+		w.nodes[k] = n
+	}
+	return n
+}
+
+// reopenShared opens a trie on the world's storage at a commit point, through the shared hash-node object.
+func (w *World) reopenShared(c commitPoint) *wmpt.WeightedMerkleTrie {
+	return wmpt.New(w.sharedNode(c.root, c.weight), w.S)
 }
 
 func (w *World) lastCommit() *commitPoint {
@@ -180,6 +217,9 @@ func (w *World) Apply(o Op) (fail string) {
 		}
 		hit := w.S.GetFaultHit
 		w.S.ArmGetFault(-1)
+		if hit {
+			w.Faults++
+		}
 		if hit && err != nil && o.K == 'x' {
 			// A delete that fails on a read AFTER it has detached the key (the branch it leaves must be reduced,
 			// which needs the remaining child loaded) reports the error with the key already gone and the branch
@@ -277,7 +317,32 @@ func (w *World) Apply(o Op) (fail string) {
 		if c == nil || c.weight == 0 {
 			w.T = wmpt.New(nil, w.S)
 		} else {
-			w.T = wmpt.New(wmpt.NewHashNode(c.root, c.weight), w.S)
+			w.T = wmpt.New(w.sharedNode(c.root, c.weight), w.S)
+		}
+	case 'p':
+		if w.Reads < 2 {
+			w.Reads++
+		}
+		if w.M.Total() > 0 {
+			own, _ := w.M.Owner(1)
+			key, proof, err := w.T.GetBlockProof(1)
+			if err != nil || !bytes.Equal(key, own.Key) {
+				return fmt.Sprintf("GetBlockProof(1) = key %x, %v; owner %x", key, err, own.Key)
+			}
+			h, v, err := (&wmpt.WeightedMerkleTrie{}).VerifyBlockProof(1, proof)
+			if err != nil || !bytes.Equal(h, w.M.Root()) || !bytes.Equal(v, own.Value) {
+				return fmt.Sprintf("proof of block 1 verifies to (%x, %q, %v), want root %x value %q", h, v, err, w.M.Root(), own.Value)
+			}
+		}
+	case 'g':
+		w.S.FailAt = w.S.Len() // the next storage write is rejected
+		err := w.T.DeleteNodes()
+		w.S.FailAt = -1
+		if err != nil {
+			w.Faults++
+		}
+		if err == nil && w.Pending {
+			w.GCPending++ // nothing had to be written: an ordinary pass
 		}
 	case 'R':
 		if got, want := w.T.Root(), w.M.Root(); !bytes.Equal(got, want) {
@@ -315,11 +380,7 @@ func (w *World) Apply(o Op) (fail string) {
 		} else if o.K == 'Q' {
 			w.T.RollbackTrie(w.ChkSnap)
 		} else {
-			var n wmpt.Node
-			if w.Chk.weight > 0 {
-				n = wmpt.NewHashNode(w.Chk.root, w.Chk.weight)
-			}
-			w.T.RollbackTrie(n)
+			w.T.RollbackTrie(w.sharedNode(w.Chk.root, w.Chk.weight))
 		}
 		w.M = w.Chk.m.Clone()
 		w.Pending = false
@@ -390,7 +451,7 @@ func (w *World) Key() string {
 	}
 	var sb strings.Builder
 	sb.WriteString(modelKey(w.M))
-	fmt.Fprintf(&sb, "|pending=%v|", w.Pending)
+	fmt.Fprintf(&sb, "|pending=%v|faults=%d|reads=%d|", w.Pending, w.Faults, w.Reads)
 	if c := w.lastCommit(); c != nil {
 		fmt.Fprintf(&sb, "last=%x{%s}|", c.root[:6], modelKey(c.m))
 	}
